@@ -1,6 +1,12 @@
 From Coq Require Import Extraction ExtrOcamlBasic.
-From LCP Require Import Base.ExtractBase Base.CheckedMem Gen.Repo_aes Crypto.AesSpec Accel.AesNi
-  Crypto.AesCtrModel Crypto.AesWipe Crypto.AesRepo.
+From LCP Require Import Base.ExtractBase.
+From LCP Require Import Base.CheckedMem.
+From LCP Require Import Gen.Repo_aes.
+From LCP Require Import Crypto.AesSpec.
+From LCP Require Import Accel.AesNi.
+From LCP Require Import Crypto.AesCtrModel.
+From LCP Require Import Crypto.AesWipe.
+From LCP Require Import Crypto.AesRepo.
 Extraction Language OCaml.
 Extraction "aes.ml" force_number_types
   x_key_expand_aesni x_encrypt_block_aesni x_key_expansion x_cipher x_nr_of x_aes_encrypt_slow
